@@ -42,7 +42,8 @@ def confirm(scratch, ovs, target_dir, h, result, mine, logdir):
     test_src = re.sub(r"(concrete_playback_run\(concrete_vals,\s*)%s\)" % re.escape(last), r"\1%s)" % h["fn"], test_src)
     # harness files whose environment is provided by kani::stub (absent in a native build) offer
     # `native_replay_init()`, which switches them to a real equivalent (e.g. a packet-mode pipe)
-    hsrc = open(os.path.join(VERIF, [f for f in h["files"] if not os.path.basename(f).startswith("GEN:")][0])).read()
+    first = h["files"][0]
+    hsrc = "" if os.path.basename(first).startswith("GEN:") else open(os.path.join(VERIF, first)).read()
     if "fn native_replay_init" in hsrc:
         test_src = test_src.replace("kani::concrete_playback_run(", "native_replay_init();\n    kani::concrete_playback_run(", 1)
     out["playback_test"] = test_src[:6000]
